@@ -103,6 +103,15 @@ def gen_case(rng, i):
     entry = rng.choice(['string', 'string', 'file', 'files'])
     case = {'opts': opts, 'entry': entry, 'muts': muts, 'actual_text': T.to_text(rng, act),
             'expected_text': T.to_text(rng, ref)}
+    if rng.random() < 0.1:
+        # degenerate sides: nothing at all, only line ends, or only lines that the options take out again
+        deg = rng.choice(['', '\n', '\n\n', 'RM a\nRM b\n', ' \n\t\n'])
+        if 'RM' in deg:
+            case['opts']['remove_lines'] = ['RM']
+        side = rng.choice(['actual_text', 'actual_text', 'expected_text', 'both'])
+        for k in (['actual_text', 'expected_text'] if side == 'both' else [side]):
+            case[k] = deg
+        case['shape'] = 'degenerate-' + side
     if entry == 'files':
         good = T.to_text(rng, ref)
         if rng.random() < 0.5:
@@ -291,6 +300,16 @@ def run_case(ctx, case):
                                      'mech': dict(mech, sub=sub, removal=bool(o.get('remove_lines')),
                                                   preprocess=bool(o.get('preprocess'))),
                                      'facts': {'file': got[:300], 'actual': want[:300]}})
+    elif entry == 'string':
+        # no raw comparison offered: then some other command named in the message has to give a file holding
+        # exactly the string that was asserted
+        rec.event('artefact:raw_actual_checked')
+        holds = [c for c in cmds if os.path.exists(c[1]) and read_text(c[1]) == case['actual_text']]
+        if not holds:
+            rec.violation('no_command_gives_the_actual_string', {
+                'case': case, 'mech': dict(mech, removal=bool(o.get('remove_lines')), preprocess=bool(o.get('preprocess')),
+                                           actual=('empty' if case['actual_text'] == '' else 'blank' if not case['actual_text'].strip() else 'text')),
+                'facts': {'commands': [list(c) for c in cmds[:3]], 'actual': case['actual_text'][:200]}})
     elif entry in ('file', 'files') and raw:
         rec.event('artefact:raw_actual_checked')
         if os.path.abspath(raw[0][1]) != os.path.abspath(ap):
